@@ -58,7 +58,7 @@ def run(ctx):
     ctx.assumptions = ["sub-protocol: the message pipe is synchronous, so 'the sentinel request was consumed' = the message was handled and the peer kept; 'handle returned' = dropped",
                        "hash check features come from golang.org/x/crypto/sha3; signatures are made with the repository's crypto.Sign",
                        "the man in the middle sits under the writer's rlpx layer (it sees and alters exactly the bytes that go on the wire); frames are altered per message, handshake packets per packet",
-                       "allocation bounds: 256 KiB per datagram, 256 MiB for reading one (at most 16 MiB) message including decompression and the reader's copy, 1 MiB per handshake",
+                       "allocation bounds: 4 MiB per datagram (1280 bytes), 256 MiB for reading one (at most 16 MiB) message including decompression and the reader's copy, 16 MiB per handshake; wedge = no return within 10-15 minutes (no verdict depends on how fast a loaded machine is)",
                        "a datagram is 'solicited' when a pending request of its type is registered for the sender (key K2); key K never has one"]
     vlib.write_evidence(ctx, rule="every truncation, every 3rd (quick) / every (thorough) byte position x 3 substitutions x {raw, re-hashed, re-signed}, 256 type bytes x 7 lengths, "
         "malformed-RLP corpus x 4 types, random datagrams of 16 length classes, x 2 wire dialects; RLPx: untampered sessions up to the 16 MiB limit, 22+ handshake tamper points per packet, "
